@@ -1,6 +1,7 @@
 """Delta debugging of a failing plan while the same violation class
 (oracle id + blamed callable) keeps failing."""
 import copy
+from time import perf_counter as _perf
 
 from . import runner
 from .source import ReplaySource
@@ -52,9 +53,20 @@ def _ddmin(lst, test, budget):
     return lst
 
 
-def minimise(plan, key, max_trials=120):
+class _Budget(list):
+    """[trials left]; reads as exhausted once the wall-clock deadline (perf_counter seconds) has passed."""
+    deadline = None
+
+    def __getitem__(self, i):
+        if self.deadline is not None and _perf() > self.deadline:
+            return 0
+        return list.__getitem__(self, i)
+
+
+def minimise(plan, key, max_trials=120, deadline=None):
     plan = copy.deepcopy(plan)
-    budget = [max_trials]
+    budget = _Budget([max_trials])
+    budget.deadline = deadline
     v = fails(plan, key)
     if v is None:
         return plan, None, 0
@@ -157,4 +169,4 @@ def minimise(plan, key, max_trials=120):
             if fails(plan, key) is None:
                 plan['cfg'][k] = saved
     v = fails(plan, key)
-    return plan, v, max_trials - budget[0]
+    return plan, v, max_trials - list.__getitem__(budget, 0)
